@@ -14,6 +14,9 @@ import (
 	"github.com/foxboron/go-uefi/efivarfs"
 	"github.com/foxboron/go-uefi/efivarfs/testfs"
 
+	"github.com/spf13/afero"
+
+	"verif/internal/fault"
 	"verif/internal/keys"
 	"verif/internal/mon"
 )
@@ -46,6 +49,8 @@ type c12Op struct {
 	N     int    `json:"n,omitempty"` // entries of a generated database
 	Salt  int    `json:"s,omitempty"`
 	Key   int    `json:"k,omitempty"`
+	Rev   bool   `json:"r,omitempty"` // entries in reverse order
+	Split bool   `json:"sp,omitempty"` // entries spread over two lists
 }
 
 type c12Hist struct {
@@ -59,6 +64,7 @@ var c12Vars = func() []efivar.Efivar {
 		{Name: "VerifPlainA", GUID: g1, Attributes: 7},
 		{Name: "VerifPlainB", GUID: g1, Attributes: 7},
 		efivar.BootOrder,
+		{Name: "VerifZeroAttrs", GUID: g1},
 	}
 }()
 
@@ -67,6 +73,42 @@ func c12db(n, salt int) *signature.SignatureDatabase {
 	owner := *util.StringToGUID("aaaaaaaa-bbbb-cccc-dddd-eeeeeeeeeeee")
 	for i := 0; i < n; i++ {
 		d := bytes.Repeat([]byte{byte(salt), byte(i)}, 16)
+		db.Append(signature.CERT_SHA256_GUID, owner, d)
+	}
+	return db
+}
+
+// c12dbArr: the same entries as c12db(n, salt) in another arrangement.
+func c12dbArr(n, salt int, rev, split bool) *signature.SignatureDatabase {
+	if !rev && !split {
+		return c12db(n, salt)
+	}
+	owner := *util.StringToGUID("aaaaaaaa-bbbb-cccc-dddd-eeeeeeeeeeee")
+	var ds [][]byte
+	for i := 0; i < n; i++ {
+		ds = append(ds, bytes.Repeat([]byte{byte(salt), byte(i)}, 16))
+	}
+	if rev {
+		for a, b := 0, len(ds)-1; a < b; a, b = a+1, b-1 {
+			ds[a], ds[b] = ds[b], ds[a]
+		}
+	}
+	db := signature.NewSignatureDatabase()
+	if split && n >= 2 {
+		l1 := signature.NewSignatureList(signature.CERT_SHA256_GUID)
+		l2 := signature.NewSignatureList(signature.CERT_SHA256_GUID)
+		for i, d := range ds {
+			if i < n/2 {
+				l1.AppendBytes(owner, d)
+			} else {
+				l2.AppendBytes(owner, d)
+			}
+		}
+		db.AppendList(l1)
+		db.AppendList(l2)
+		return db
+	}
+	for _, d := range ds {
 		db.Append(signature.CERT_SHA256_GUID, owner, d)
 	}
 	return db
@@ -91,6 +133,12 @@ func c12RunHistory(c *WCase, res *WResult) {
 		tf = tf.With(m)
 	}
 	var e *efivarfs.Efivarfs = tf.Open()
+	var ffs *fault.Fs
+	if len(h.Pre) == 0 {
+		// an in-memory filesystem of our own underneath, so that a single write can be made to fail
+		ffs = fault.NewFs(afero.NewMemMapFs())
+		tf.SetFS(ffs)
+	}
 	reads := 0
 	fail := func(i int, kind, f string, a ...any) {
 		res.Val = fmt.Sprintf("VIOLATION|%s|step %d (%s on %s): %s", kind, i, h.Ops[i].Op, c12Vars[h.Ops[i].Var].Name, fmt.Sprintf(f, a...))
@@ -105,14 +153,14 @@ func c12RunHistory(c *WCase, res *WResult) {
 			}
 			model[op.Var] = op.Bytes
 		case "db":
-			db := c12db(op.N, op.Salt)
+			db := c12dbArr(op.N, op.Salt, op.Rev, op.Split)
 			if err := e.WriteVar(v, db); err != nil {
 				fail(i, "write-error", "WriteVar(database ×%d): %v", op.N, err)
 				return
 			}
 			model[op.Var] = db.Bytes()
 		case "signed":
-			db := c12db(op.N, op.Salt)
+			db := c12dbArr(op.N, op.Salt, op.Rev, op.Split)
 			k := keys.Get(op.Key)
 			cert := keys.Simple(k, "c12", 5)
 			if err := e.WriteSignedUpdate(v, db, k.Priv, cert); err != nil {
@@ -120,6 +168,19 @@ func c12RunHistory(c *WCase, res *WResult) {
 				return
 			}
 			model[op.Var] = db.Bytes()
+		case "failwrite":
+			if ffs == nil {
+				continue
+			}
+			// every filesystem call of this one write fails: the write must report it and store nothing
+			ffs.Reset()
+			ffs.Plan = fault.Plan{K: 1, Mode: "error", Persistent: true}
+			err := e.WriteVar(v, rawVal(op.Bytes))
+			ffs.Plan = fault.Plan{}
+			if err == nil {
+				fail(i, "failed-write-reported-success", "WriteVar returned nil although the filesystem call failed")
+				return
+			}
 		case "get":
 			want, ok := model[op.Var]
 			var spy spyVal
@@ -221,13 +282,15 @@ func checkC12(r *mon.Run) {
 			case k < 6 && vi < 4:
 				op.Op = "signed"
 				op.N = rng.Intn(6)
-				op.Salt = s
+				op.Salt = 1 + rng.Intn(3) // few salts: the same entries come back in other arrangements
+				op.Rev, op.Split = rng.Intn(2) == 0, rng.Intn(3) == 0
 				op.Key = rng.Intn(4)
 				interesting[i] = true
 			case k < 8 && vi < 4:
 				op.Op = "db"
 				op.N = rng.Intn(6)
-				op.Salt = s
+				op.Salt = 1 + rng.Intn(3)
+				op.Rev, op.Split = rng.Intn(2) == 0, rng.Intn(3) == 0
 			default:
 				if vi < 4 {
 					op.Op = "db"
@@ -235,6 +298,9 @@ func checkC12(r *mon.Run) {
 					op.Salt = s
 				} else {
 					op.Op = "raw"
+					if rng.Intn(6) == 0 {
+						op.Op = "failwrite"
+					}
 					l := rng.Intn(64)
 					if rng.Intn(5) == 0 {
 						l = 0
@@ -256,6 +322,8 @@ func checkC12(r *mon.Run) {
 					}
 				}
 				last[vi] = nl
+			} else if op.Op == "failwrite" {
+				r.Count("failed_writes_generated", 1)
 			} else if op.Op == "raw" {
 				if prev, ok := last[vi]; ok && len(op.Bytes) < prev {
 					interesting[i] = true
